@@ -38,9 +38,9 @@ type joeTrace struct {
 	rc         []string
 	rOutcome   string
 	putOutcome string
-	failedSub  int // sub whose error was just placed (next loop.removed is its removal)
+	failedSub  int   // sub whose error was just placed (next loop.removed is its removal)
 	lastNow    int64 // what the injected clock returned to the replayer's last Now() call
-	pendSub    int // sub with a successful live Send whose Flush has not been seen yet, -1 if none
+	pendSub    int   // sub with a successful live Send whose Flush has not been seen yet, -1 if none
 	pendPub    string
 	facts      []string
 	panicSeen  bool
